@@ -7,7 +7,12 @@ package fasthttp
 // rather than rejected).  Server programs: complete answer, Connection: close, connection cut
 // after any prefix, delayed tails.  Caller programs: buffered; streamed and read to the end;
 // streamed, read k bytes, CloseBodyStream; streamed and closed at once; streamed, read k bytes,
-// perform further calls on the same goroutine, then read the rest; short timeouts.
+// perform further calls on the same goroutine, then read the rest; short timeouts.  A streamed response
+// is let go by CloseBodyStream, by ReleaseResponse alone, by Reset, or by reusing the same Response in
+// the next call; DoRedirects and the Get/GetTimeout/GetDeadline/Post helpers (with and without a
+// caller-supplied dst) follow 302 hops.  Every delivered body the caller still holds (helper results,
+// bodies of responses not yet released) is compared again with its own request's content after every
+// later call (trace line "intact").
 // Non-idempotent methods with MaxIdemponentCallAttempts=1 dominate, so a retry cannot mask a
 // reused connection.  The log (server: send/push, connection: pull/close, ReleaseConn hook:
 // rel, caller: head/ret) is validated against specs/client/ClientRoundTripTrace.tla; the
@@ -77,8 +82,11 @@ func c04Fake(id, k, size int) []byte {
 
 // c04Body is the body the server sends for request id with body kind want.
 func c04UnitSize(want string) int {
-	if want == "large" || want == "chunkL" {
-		return 160
+	switch want {
+	case "large", "chunkL":
+		return 250 // 2 units exceed MaxResponseBodySize (400)
+	case "mid":
+		return 120
 	}
 	return 80
 }
@@ -89,6 +97,29 @@ func c04Body(id int, want string) []byte {
 		b = append(b, c04Fake(id, k, c04UnitSize(want))...)
 	}
 	return b
+}
+
+func c04URL(id int, want string, mode, redir int) string {
+	return fmt.Sprintf("http://c04.test/r?id=%d&want=%s&mode=%d&redir=%d", id, want, mode, redir)
+}
+
+// c04Query returns a query parameter of the request line.
+func c04Query(req []byte, name string) string {
+	line := req
+	if i := bytes.Index(req, []byte("\r\n")); i >= 0 {
+		line = req[:i]
+	}
+	key := []byte(name + "=")
+	for _, sep := range []string{"?", "&"} {
+		if i := bytes.Index(line, append([]byte(sep), key...)); i >= 0 {
+			rest := line[i+1+len(key):]
+			if j := bytes.IndexAny(rest, "& "); j >= 0 {
+				rest = rest[:j]
+			}
+			return string(rest)
+		}
+	}
+	return ""
 }
 
 func c04HeaderVal(req []byte, name string) string {
@@ -153,9 +184,10 @@ func (r *c04Rec) dial(addr string) (net.Conn, error) {
 
 // serve is the scripted server: called for every complete request written to a connection.
 func (r *c04Rec) serve(c *c18Conn, req []byte) {
-	id, _ := strconv.Atoi(c04HeaderVal(req, "X-Req-Id"))
-	want := c04HeaderVal(req, "X-Want")
-	mode, _ := strconv.Atoi(c04HeaderVal(req, "X-Mode"))
+	id, _ := strconv.Atoi(c04Query(req, "id"))
+	want := c04Query(req, "want")
+	mode, _ := strconv.Atoi(c04Query(req, "mode"))
+	redir, _ := strconv.Atoi(c04Query(req, "redir"))
 	r.smu.Lock()
 	beh := r.srng.Intn(100)
 	cutAt := r.srng.Intn(4)
@@ -186,6 +218,9 @@ func (r *c04Rec) serve(c *c18Conn, req []byte) {
 		nbody = 3
 	}
 	head := "HTTP/1.1 200 OK\r\nX-Resp-Id: " + strconv.Itoa(id) + "\r\n"
+	if redir > 0 { // a redirect hop: same tagged body, the client is sent on to the next hop
+		head = "HTTP/1.1 302 Found\r\nX-Resp-Id: " + strconv.Itoa(id) + "\r\nLocation: " + c04URL(id, want, mode, redir-1)[len("http://c04.test"):] + "\r\n"
+	}
 	if sayClose {
 		head += "Connection: close\r\n"
 	}
@@ -282,6 +317,11 @@ type c04Doer interface {
 	Do(req *Request, resp *Response) error
 	DoTimeout(req *Request, resp *Response, timeout time.Duration) error
 	DoDeadline(req *Request, resp *Response, deadline time.Time) error
+	DoRedirects(req *Request, resp *Response, maxRedirectsCount int) error
+	Get(dst []byte, url string) (int, []byte, error)
+	GetTimeout(dst []byte, url string, timeout time.Duration) (int, []byte, error)
+	GetDeadline(dst []byte, url string, deadline time.Time) (int, []byte, error)
+	Post(dst []byte, url string, postArgs *Args) (int, []byte, error)
 }
 
 type c04Cfg struct {
@@ -309,11 +349,11 @@ func c04RunOne(rng *rand.Rand, cfg c04Cfg, stats map[string]int) (ex c04Exec, vi
 	}
 	if cfg.useClient {
 		cl := &Client{Dial: rec.dial, MaxConnsPerHost: cfg.maxConns, MaxConnWaitTimeout: 500 * time.Millisecond,
-			MaxResponseBodySize: 200, MaxIdemponentCallAttempts: attempts}
+			MaxResponseBodySize: 400, MaxIdemponentCallAttempts: attempts}
 		doer, closeIdle = cl, cl.CloseIdleConnections
 	} else {
 		hc := &HostClient{Addr: "c04.test:80", Dial: rec.dial, MaxConns: cfg.maxConns, MaxConnWaitTimeout: 500 * time.Millisecond,
-			MaxResponseBodySize: 200, MaxIdemponentCallAttempts: attempts}
+			MaxResponseBodySize: 400, MaxIdemponentCallAttempts: attempts}
 		doer, closeIdle = hc, hc.CloseIdleConnections
 	}
 	var vmu sync.Mutex
@@ -331,6 +371,12 @@ func c04RunOne(rng *rand.Rand, cfg c04Cfg, stats map[string]int) (ex c04Exec, vi
 	}
 	var nextID atomic.Int32
 	var wg sync.WaitGroup
+	type heldBody struct {
+		id   int
+		want string
+		body []byte    // a delivered body the caller still holds
+		resp *Response // set when the body lives in a response the caller has not released yet
+	}
 	for w := 0; w < cfg.workers; w++ {
 		wg.Add(1)
 		wrng := rand.New(rand.NewSource(rng.Int63()))
@@ -342,48 +388,122 @@ func c04RunOne(rng *rand.Rand, cfg c04Cfg, stats map[string]int) (ex c04Exec, vi
 				rec.cur[gid] = id
 				rec.mu.Unlock()
 			}
+			var held []heldBody
+			var carry *Response // a response with a half-read body stream that the next call will reuse
+			// every body delivered so far and still held must still be what the server sent for ITS request
+			recheck := func(after int) {
+				for _, h := range held {
+					same := bytes.Equal(h.body, c04Body(h.id, h.want))
+					rec.log(vfRec{"ev": "intact", "i": h.id, "same": c18B2i(same)})
+					if !same {
+						viol(fmt.Sprintf("held-body-changed:resp=%v", h.resp != nil),
+							fmt.Sprintf("the body delivered for request %d (%d bytes, still held by its caller) changed after request %d completed", h.id, len(h.body), after))
+					}
+				}
+			}
+			dropHeld := func() {
+				for _, h := range held {
+					if h.resp != nil {
+						ReleaseResponse(h.resp)
+					}
+				}
+				held = held[:0]
+			}
 			var runCall func(depth int)
 			runCall = func(depth int) {
 				id := int(nextID.Add(1))
 				setCur(id)
-				want := []string{"small", "large", "chunkS", "chunkL"}[wrng.Intn(4)]
-				streamed := wrng.Intn(100) < cfg.streamPct
+				want := []string{"small", "mid", "large", "chunkS", "chunkL"}[wrng.Intn(5)]
+				api := []string{"do", "do", "do", "timeout-short", "timeout-long", "deadline", "redirects",
+					"get", "get", "gettimeout", "getdeadline", "post"}[wrng.Intn(12)]
+				helper := api == "get" || api == "gettimeout" || api == "getdeadline" || api == "post"
+				streamed := !helper && wrng.Intn(100) < cfg.streamPct
 				prog := []string{"all", "some", "none", "hold"}[wrng.Intn(4)]
 				if prog == "hold" && (depth > 0 || cfg.maxConns < 2) {
 					prog = "all"
 				}
+				drop := []string{"close", "release", "reset", "reuse"}[wrng.Intn(4)]
+				redir := 0
+				if (helper || api == "redirects") && wrng.Intn(2) == 0 {
+					redir = 1 + wrng.Intn(2)
+				}
+				url := c04URL(id, want, c18B2i(streamed), redir)
+				desc := fmt.Sprintf("%s body=%s streamed=%v prog=%s drop=%s redir=%d", api, want, streamed, prog, drop, redir)
+				full := c04Body(id, want)
+
+				if helper {
+					var dst []byte
+					if wrng.Intn(2) == 0 {
+						dst = make([]byte, 0, 64+wrng.Intn(512))
+					}
+					var body []byte
+					var err error
+					switch api {
+					case "get":
+						_, body, err = doer.Get(dst, url)
+					case "gettimeout":
+						_, body, err = doer.GetTimeout(dst, url, []time.Duration{3 * time.Millisecond, 3 * time.Second}[wrng.Intn(2)])
+					case "getdeadline":
+						_, body, err = doer.GetDeadline(dst, url, time.Now().Add(3*time.Second))
+					case "post":
+						args := AcquireArgs()
+						args.Set("k", "v")
+						_, body, err = doer.Post(dst, url, args)
+						ReleaseArgs(args)
+					}
+					switch {
+					case err == ErrTimeout && api != "get" && api != "post":
+						// GetTimeout/GetDeadline give up but let the request finish in the background
+						rec.log(vfRec{"ev": "ret", "i": id, "redir": redir, "ok": 0, "late": 1, "desc": desc})
+						count("err")
+					case err != nil:
+						rec.log(vfRec{"ev": "ret", "i": id, "redir": redir, "ok": 0, "late": 0, "err": err.Error(), "desc": desc})
+						count("err")
+					default:
+						rec.log(vfRec{"ev": "ret", "i": id, "redir": redir, "ok": 1, "late": 0})
+						count("ok-helper")
+						if !bytes.Equal(body, full) {
+							viol("body-corrupt:"+desc, fmt.Sprintf("request %d: %s returned a body of %d bytes that differs from the %d bytes sent for it", id, api, len(body), len(full)))
+						} else {
+							held = append(held, heldBody{id: id, want: want, body: body})
+						}
+					}
+					recheck(id)
+					if len(held) > 6 {
+						dropHeld()
+					}
+					return
+				}
+
 				method := "POST"
 				if wrng.Intn(100) < cfg.getPct {
 					method = "GET"
 				}
 				req := AcquireRequest()
-				resp := AcquireResponse()
+				resp := carry
+				carry = nil
+				if resp == nil {
+					resp = AcquireResponse()
+				}
 				req.Header.SetMethod(method)
-				req.SetRequestURI("http://c04.test/r")
-				req.Header.Set("X-Req-Id", strconv.Itoa(id))
-				req.Header.Set("X-Want", want)
-				req.Header.Set("X-Mode", strconv.Itoa(c18B2i(streamed)))
+				req.SetRequestURI(url)
 				if method == "POST" {
 					req.SetBodyString("x")
 				}
 				resp.StreamBody = streamed
 				var err error
-				call := "do"
-				switch wrng.Intn(6) {
-				case 0:
-					call = "timeout-short"
+				switch api {
+				case "timeout-short":
 					err = doer.DoTimeout(req, resp, time.Duration(1+wrng.Intn(4))*time.Millisecond)
-				case 1:
-					call = "timeout-long"
+				case "timeout-long":
 					err = doer.DoTimeout(req, resp, 3*time.Second)
-				case 2:
-					call = "deadline"
+				case "deadline":
 					err = doer.DoDeadline(req, resp, time.Now().Add(3*time.Second))
+				case "redirects":
+					err = doer.DoRedirects(req, resp, 4)
 				default:
 					err = doer.Do(req, resp)
 				}
-				desc := fmt.Sprintf("%s %s body=%s streamed=%v prog=%s", call, method, want, streamed, prog)
-				full := c04Body(id, want)
 				checkID := func() bool {
 					got := string(resp.Header.Peek("X-Resp-Id"))
 					if got != strconv.Itoa(id) {
@@ -392,15 +512,22 @@ func c04RunOne(rng *rand.Rand, cfg c04Cfg, stats map[string]int) (ex c04Exec, vi
 					}
 					return true
 				}
+				keepResp := false
 				switch {
 				case err != nil:
-					rec.log(vfRec{"ev": "ret", "i": id, "ok": 0, "err": err.Error(), "desc": desc})
+					rec.log(vfRec{"ev": "ret", "i": id, "redir": redir, "ok": 0, "late": 0, "err": err.Error(), "desc": desc})
 					count("err")
 				case !streamed:
-					rec.log(vfRec{"ev": "ret", "i": id, "ok": 1})
+					rec.log(vfRec{"ev": "ret", "i": id, "redir": redir, "ok": 1, "late": 0})
 					count("ok-buffered")
-					if checkID() && !bytes.Equal(resp.Body(), full) {
-						viol("body-corrupt:"+desc, fmt.Sprintf("request %d: body of %d bytes differs from the %d bytes sent for it", id, len(resp.Body()), len(full)))
+					if checkID() {
+						if !bytes.Equal(resp.Body(), full) {
+							viol("body-corrupt:"+desc, fmt.Sprintf("request %d: body of %d bytes differs from the %d bytes sent for it", id, len(resp.Body()), len(full)))
+						} else if depth == 0 && wrng.Intn(3) == 0 {
+							// keep the response (not released) and its body across later calls
+							held = append(held, heldBody{id: id, want: want, body: resp.Body(), resp: resp})
+							keepResp = true
+						}
 					}
 				default:
 					rec.log(vfRec{"ev": "head", "i": id})
@@ -447,14 +574,40 @@ func c04RunOne(rng *rand.Rand, cfg c04Cfg, stats map[string]int) (ex c04Exec, vi
 					if wrng.Intn(3) == 0 {
 						time.Sleep(time.Duration(wrng.Intn(500)) * time.Microsecond)
 					}
-					resp.CloseBodyStream()
+					// the ways a caller lets go of a (possibly half-read) streamed response
+					count("drop-" + drop)
+					switch drop {
+					case "close":
+						resp.CloseBodyStream()
+					case "reset":
+						resp.Reset()
+					case "reuse":
+						if depth == 0 {
+							carry = resp // the next call on this goroutine does Do(req, resp) with this very response
+							keepResp = true
+						}
+					case "release": // ReleaseResponse below, without CloseBodyStream
+					}
 				}
 				ReleaseRequest(req)
-				ReleaseResponse(resp)
+				if !keepResp {
+					ReleaseResponse(resp)
+				}
+				if depth == 0 {
+					recheck(id)
+					if len(held) > 6 {
+						dropHeld()
+					}
+				}
 			}
 			for k := 0; k < cfg.calls; k++ {
 				runCall(0)
 			}
+			if carry != nil {
+				ReleaseResponse(carry)
+			}
+			recheck(0)
+			dropHeld()
 		}()
 	}
 	doneCh := make(chan struct{})
@@ -523,7 +676,7 @@ func TestVerifC04RoundTrip(t *testing.T) {
 		extra["calls_"+k] = v
 	}
 	// non-trivial: calls that got a streamed response (the stream-close path decides about reuse)
-	nontriv := stats["ok-streamed-all"] + stats["ok-streamed-some"] + stats["ok-streamed-none"] + stats["ok-streamed-hold"]
+	nontriv := stats["ok-streamed-all"] + stats["ok-streamed-some"] + stats["ok-streamed-none"] + stats["ok-streamed-hold"] + stats["ok-helper"]
 	vfStat(calls, nontriv, extra)
 	vfDone()
 }
